@@ -29,9 +29,13 @@ pub fn rdist(m: Metric, a: &[f64], b: &[f64]) -> f64 {
                     s = d
                 }
             }
+            Metric::Lp(p) => s += d.powf(p),
         }
     }
-    s
+    match m {
+        Metric::Lp(p) => s.powf(1.0 / p),
+        _ => s,
+    }
 }
 
 /// true distance of the metric, f64
@@ -55,9 +59,14 @@ pub fn rdist_f<F: Float>(m: Metric, a: &[F], b: &[F]) -> F {
                     s = d
                 }
             }
+            Metric::Lp(p) => s = s + d.powf(F::cast(p)),
         }
     }
-    s
+    match m {
+        // LpDist has no reduced form: (sum |d|^p)^(1/p), exponent 1/p formed in the element type
+        Metric::Lp(p) => s.powf(F::one() / F::cast(p)),
+        _ => s,
+    }
 }
 
 /// `Distance::distance` applied to two k×p matrices (what the stopping rule evaluates), in the
@@ -103,8 +112,33 @@ impl Nearest {
 /// non-negative, so the relative error is at most (p+4) eps; p <= 4 here, 64 eps is generous.
 pub const RDIST_REL_EPS: f64 = 64.0;
 
-pub fn rdist_tol(eps: f64, tiny: f64, r: f64) -> f64 {
-    RDIST_REL_EPS * eps * r + 16.0 * tiny
+/// Allowed deviation of a (reduced) distance `r` computed in the element type from the f64 reference.
+///
+/// L1 / L2 / Linf: 64 eps r + 16 min_positive (sum of <= 4 non-negative terms).
+///
+/// Lp(q), r = S^(1/q) with S = sum |d_i|^q: each |d_i|^q carries (q+2) eps (rounded difference raised
+/// to q, powf good to ~2 ulp), the sum of <= 4 terms 4 eps more; the outer exponent 1/q is itself
+/// rounded in the element type, S^((1/q)(1+e)) = S^(1/q) exp(e ln(S)/q), i.e. a relative error
+/// eps |ln S|/q = eps |ln r|; the outer powf ~2 ulp. Total relative error <= ((q+8)/q + |ln r| + 2) eps,
+/// bounded here by (64 + 4 |ln r|) eps. Terms |d_i|^q below min_positive are lost (underflow), which
+/// moves S by at most 4 min_positive and r by at most (4 min_positive)^(1/q); allowed (16 min_positive)^(1/q).
+pub fn rdist_tol(m: Metric, eps: f64, tiny: f64, r: f64) -> f64 {
+    match m {
+        Metric::Lp(q) => {
+            let ln = if r > 0.0 && r.is_finite() { r.ln().abs() } else { 0.0 };
+            (RDIST_REL_EPS + 4.0 * ln) * eps * r + (16.0 * tiny).powf(1.0 / q)
+        }
+        _ => RDIST_REL_EPS * eps * r + 16.0 * tiny,
+    }
+}
+
+/// The same for a true distance (L2: square root of the reduced distance, relative error halves;
+/// 64 eps kept).
+pub fn dist_tol(m: Metric, eps: f64, tiny: f64, d: f64) -> f64 {
+    match m {
+        Metric::Lp(_) => rdist_tol(m, eps, tiny, d),
+        _ => RDIST_REL_EPS * eps * d,
+    }
 }
 
 /// Independent arg-min scan of one point against all centroids.
@@ -125,7 +159,7 @@ pub fn nearest<F: Float>(
         }
     }
     let rmin = d.get(first).copied().unwrap_or(f64::NAN);
-    let tol = rdist_tol(eps, tiny, rmin);
+    let tol = rdist_tol(m, eps, tiny, rmin);
     let near: Vec<usize> = (0..d.len()).filter(|&j| d[j] <= rmin + tol).collect();
     let mut exact_tie = false;
     if near.len() > 1 {
